@@ -32,26 +32,9 @@ Fixpoint canon_js (v : value) : value :=
 Definition canon (fm : format) : value -> value :=
   match fm with FJson => canon_js | FMsgpack => canon_mp | FCbor => canon_cb end.
 
-Definition canon_fval (fm : format) (v : fval) : fval :=
-  match v with
-  | FDict (Some d) => FDict (Some (map (fun kv => (fst kv, canon fm (snd kv))) d))
-  | FList (Some l) => FList (Some (map (canon fm) l))
-  | _ => v
-  end.
+Definition canon_fval (fm : format) : fval -> fval := canon_fval_by (canon fm).
 
-Definition canon_msg (fm : format) (m : msg) : msg :=
-  {| m_struct := m_struct m; m_fields := map (canon_fval fm) (m_fields m) |}.
-
-(** nil and empty containers are the same message content *)
-Definition fval_norm (v : fval) : fval :=
-  match v with
-  | FDict None => FDict (Some [])
-  | FList None => FList (Some [])
-  | _ => v
-  end.
-
-Definition msg_norm (m : msg) : msg :=
-  {| m_struct := m_struct m; m_fields := map fval_norm (m_fields m) |}.
+Definition canon_msg (fm : format) : msg -> msg := canon_msg_by (canon fm).
 
 Definition fval_eqb (a b : fval) : bool :=
   match a, b with
